@@ -63,8 +63,24 @@ def main():
         res = dict(id=item['id'])
         try:
             mods = []
-            for name, src in item['sources']:
+            srcs = item['sources']
+            for k, (name, src) in enumerate(srcs):
+                if k == len(srcs) - 1 and item.get('leaf_name'):
+                    # the saved source of the last module is loaded under a name of the user's choosing
+                    name = item['leaf_name']
+                # a dotted name lives in a package: make the (empty) packages importable
+                parts = name.split('.')
+                for j in range(1, len(parts)):
+                    pk = '.'.join(parts[:j])
+                    if pk not in sys.modules:
+                        pm = types.ModuleType(pk)
+                        pm.__path__ = []
+                        sys.modules[pk] = pm
+                        if j > 1:
+                            setattr(sys.modules['.'.join(parts[:j - 1])], parts[j - 1], pm)
                 m = types.ModuleType(name)
+                if len(parts) > 1:
+                    setattr(sys.modules['.'.join(parts[:-1])], parts[-1], m)
                 # emitted modules carry their description in __doc__ (needed by `extends`)
                 code = compile(src, '<%s>' % name, 'exec')
                 sys.modules[name] = m
